@@ -159,6 +159,22 @@ func runC11(c *Ctx, r *Report, tier string) {
 				okU = okU && hasU
 			}
 		}
+		// … and "is an Unmarshaler" looks at the value and at every address of it (UnmarshalFlag usually has a pointer
+		// receiver): the probe loops through Addr() until it cannot go on
+		if iu := c.mustFn(r, "(*Option).isUnmarshaler"); iu != nil {
+			okL := false
+			for _, l := range c.loopsDeep(iu) {
+				for _, in := range l.Header.Instrs {
+					if p, ok := in.(*ssa.Phi); ok {
+						t := c.term(p)
+						if strings.Contains(t, "Option.value(P0)") && strings.Contains(t, "call:(reflect.Value).Addr(phi↺)") {
+							okL = true
+						}
+					}
+				}
+			}
+			r.Check(okL, "UNMARSHAL", c.fname(iu), "the Unmarshaler probe follows the value's addresses", c.pos(iu.Pos()), "v loops through v.Addr() from option.value", "only the value itself is probed: a type whose UnmarshalFlag has a pointer receiver is not recognised, so a bool-kinded one is refused its argument")
+		}
 		r.Check(okU, "UNMARSHAL", c.fname(ca), "an Unmarshaler always takes an argument", c.pos(ca.Pos()), "canArgument() == false REQ(isUnmarshaler() == nil)", "a bool-kinded type with UnmarshalFlag is treated as an argument-less flag: its unmarshaler never sees the value")
 	}
 
